@@ -77,6 +77,29 @@ RULES = {
            "pointer, shared_ptr, virtual_ptr from exact static type / from base reference / converted / copied / moved / "
            "final); no definition event and no null v-table pointer may precede the report; final on every other "
            "dynamic class must give method_table_error; distinct = (registry, class left out)",
+    "C16": "per run: 2-3 caller policies (fast / checked hash, map, indirect, vector, throw_error, custom-map policy) "
+           "updated single-threaded, sequential answers tabulated, then 4-16 threads start on a barrier and each "
+           "performs thousands of calls (all routes incl. virtual_ptrs created before the threads), resolve(), "
+           "virtual_ptr / virtual_shared_ptr construction, copy, move, conversion, erroring calls with a throwing "
+           "handler, with yields and spins between operations, while one more thread registers, updates, calls and "
+           "unregisters an unrelated policy (P_c, or P_m2 = P_m1::rebind<P_m2> while P_m1 is a caller) sharing the "
+           "class ids; ThreadSanitizer reports (relaxed logical clock, so the monitor adds no happens-before edges) "
+           "and every per-thread result are judged; distinct = runs in which overlapping operations were observed",
+    "C18": "detail::static_list driven directly: EXHAUSTIVELY every legal sequence of push / remove / clear up to length 9 "
+           "over 4 nodes (thorough: length 10 over 5 nodes), each replayed from an empty list and compared after every "
+           "step with a vector model through both iterator kinds, size(), empty() and next(); random sequences up to "
+           "length 200 over 12 nodes with removals biased to first / last / middle; and the policy catalogs "
+           "(classes, methods, each method's definitions) through the registration operations of the front-end "
+           "(class records, real method objects, definition records and what their destructors do, clear) compared "
+           "with a model after every operation; distinct = distinct operation sequences",
+    "C19": "even cases: sets of 1-12 qualified class names drawn from a random program structure (0-4 namespace levels, "
+           "identifiers that are string prefixes of one another and that resemble std / yorel / keywords, inner "
+           "identifiers starting with an underscore, duplicates); odd cases: type descriptions from a grammar (cv, "
+           "pointers, references, function and pointer-to-function types, std:: / yorel:: / user templates incl. "
+           "nested and non-type arguments, every fundamental type spelling, decltype(nullptr), demangled method<> "
+           "names); the written text is parsed (balanced, only namespace / class lines) and the multiset of declared "
+           "qualified names must equal the expected set; samples compiled with g++ and clang++; distinct = distinct "
+           "inputs with >= 2 classes and a namespace",
     "C17": "update report flags compared with exhaustive oracle enumeration over all tuples of acceptable classes "
            "(all / concrete only), cells compared with the tables built; non-trivial = registry with >= 1 method",
 }
@@ -93,6 +116,9 @@ def compile_emitted(check):
     for f in files:
         wrapper = f[:-4] + ".cpp"
         with open(wrapper, "w") as w:
+            if os.path.basename(f).startswith("fwd-"):
+                w.write('#include "%s"\n' % f)
+                continue
             w.write('#include "world_impl.hpp"\nusing namespace vf;\n')
             if os.path.basename(f).startswith("offsets-"):
                 w.write('#include "%s"\n' % f)
@@ -174,6 +200,23 @@ def plan(prop, tier):
         return harness_plan(prop, tier, [("rel", 10, 60), ("asan", 6, 15)], [("rel", 14, 2500), ("asan", 14, 500)])
     if prop == "C15":
         return harness_plan(prop, tier, [("rel", 10, 200), ("asan", 6, 60)], [("rel", 14, 8000), ("asan", 14, 2000)])
+    if prop == "C16":
+        c = harness_plan(prop, tier, [("tsan", 8, 3), ("rel", 4, 6), ("asan", 2, 2)], [("tsan", 12, 40), ("rel", 8, 60), ("asan", 6, 10)], min_eval=1000)
+        return c
+    if prop == "C18":
+        c = harness_plan(prop, tier, [("rel", 6, 3000), ("asan", 4, 800)], [("rel", 12, 150000), ("asan", 8, 30000)], min_eval=1000)
+        # the exhaustive enumeration runs once per flavour
+        done = set()
+        for j in c.jobs:
+            if j.flavour not in done:
+                j.extra = list(j.extra) + ["exhaustive"]
+                done.add(j.flavour)
+        return c
+    if prop == "C19":
+        c = harness_plan(prop, tier, [("rel", 8, 30000), ("asan", 4, 5000)], [("rel", 14, 1500000), ("asan", 10, 200000)])
+        clean_emit(c)
+        c.post = compile_emitted
+        return c
     if prop == "C17":
         return harness_plan(prop, tier, [("rel", 10, 500), ("asan", 4, 150)], [("rel", 14, 15000), ("asan", 10, 3000)])
     return None
